@@ -36,6 +36,9 @@ CLASSES = {
     "OptDim": [("JBessel", "nu", {}), ("SuperSpherical", "nu", {}), ("TPLSimple", "nu", {})],
     "TPL": [("TPLGaussian", "len_low", {"hurst": 0.5}), ("TPLExponential", "len_low", {"hurst": 0.5}),
             ("TPLStable", "len_low", {"hurst": 0.5, "alpha": 1.0})],
+    # the same classes driven through their Hurst coefficient (variance factor depends on the optional argument)
+    "TPLH": [("TPLGaussian:H", "hurst", {"len_low": 0.0}), ("TPLExponential:H", "hurst", {"len_low": 0.0}),
+             ("TPLStable:H", "hurst", {"len_low": 0.0, "alpha": 1.0})],
 }
 # default optional-argument bounds in spec units, per real class
 OPTB = {
@@ -51,6 +54,10 @@ OPTB = {
     "TPLGaussian": dict(lo=0, hi=INF, lc=True, hc=False, vals={0, 64, 128, -64}),
     "TPLExponential": dict(lo=0, hi=INF, lc=True, hc=False, vals={0, 64, 128, -64}),
     "TPLStable": dict(lo=0, hi=INF, lc=True, hc=False, vals={0, 64, 128, -64}),
+    # hurst in (0.1, 1): spec units 6 ~ 0.1 (edge mapped to the literal bound), values 1/4 and 1/2
+    "TPLGaussian:H": dict(lo=6, hi=64, lc=False, hc=False, vals={16, 32, 64, 6}, scale=1.0, lo_real=0.1, hi_real=1.0),
+    "TPLExponential:H": dict(lo=6, hi=64, lc=False, hc=False, vals={16, 32, 64, 6}, scale=1.0, lo_real=0.1, hi_real=1.0),
+    "TPLStable:H": dict(lo=6, hi=64, lc=False, hc=False, vals={16, 32, 64, 6}, scale=1.0, lo_real=0.1, hi_real=1.0),
 }
 INTSCALE_OK = {"Exponential", "Gaussian"}
 
@@ -95,10 +102,17 @@ def mc_module(name, spec_cls, real, latlon, temporal, size, base="Params"):
             custom["opt"] = [_b(0, 128, True, True)]
         else:
             custom["opt"] = [_b(ob["lo"] + 32, ob["lo"] + 160, True, True)]
+    if spec_cls == "TPLH":
+        lenv, resv = {16, 64, 256}, {64}
+        if small:
+            lenv = {16, 256}
+        custom["len_scale"] = [_b(32, 480, True, True)]
+        custom["opt"] = [_b(0, 64, True, True)]
+        custom["var"] = [_b(32, 96, True, True)]   # tight: a change of the Hurst coefficient alone leaves it
     if micro:
-        lenv, anisv, varv, nugv, resv, angv, bad = {128}, {32}, {128}, {64}, {128}, {1}, {0}
+        lenv, anisv, varv, nugv, resv, angv, bad = ({128} if spec_cls != "TPLH" else {256}), {32}, {128}, {64}, ({128} if spec_cls != "TPLH" else {64}), {1}, {0}
         intv = {128} if real in INTSCALE_OK else set()
-        optv = set(sorted(optv)[-2:]) if len(optv) > 2 else optv
+        optv = ({16, 32} if spec_cls == "TPLH" else set(sorted(optv)[-2:])) if len(optv) > 2 else optv
         custom = {"var": custom["var"]}
     cb = "[" + ", ".join("%s |-> {%s}" % (k, ", ".join(v)) for k, v in custom.items()) + "]"
     defs = {
@@ -149,9 +163,10 @@ class RealModel:
 
         self.gs, self.real, self.optname, self.fixed = gs, real, optname, dict(fixed)
         self.latlon, self.temporal = latlon, temporal
-        self.cls = getattr(gs, real)
+        self.cls = getattr(gs, real.split(":")[0])
         self.ob = OPTB.get(real, {})
         self.toggle = 0
+        self.is_tpl = real.startswith("TPL") and not real.startswith("TPLSimple")
         if real not in _DEFRES:
             with warnings.catch_warnings():
                 warnings.simplefilter("ignore")
@@ -193,7 +208,7 @@ class RealModel:
         kw = dict(self.fixed)
         if self.optname and "opt" not in custom:
             kw[self.optname] = self.optval(st["opt"])
-        tpl = self.real.startswith("TPL") and self.real != "TPLSimple"
+        tpl = self.is_tpl
         with warnings.catch_warnings():
             warnings.simplefilter("ignore")
             args = dict(nugget=st["nugget"] / U if "nugget" not in custom else 0.0,
@@ -282,8 +297,9 @@ class RealModel:
         anis = [a / U for a in st["anis"]]
         res = st["rescale"] / U
         var = st["varRaw"] / U
-        if self.real.startswith("TPL") and self.real != "TPLSimple":
-            var = var * len_ / res
+        if self.is_tpl:
+            h = self.optval(st["opt"]) if self.optname == "hurst" else 0.5
+            var = var * (len_ / res) ** (2 * h) / (2 * h)
         exp = {
             "dim": dim, "var": var, "var_raw": st["varRaw"] / U, "len_scale": len_, "anis": anis,
             "angles": [ANG[a] for a in st["angles"]], "nugget": st["nugget"] / U,
@@ -399,7 +415,7 @@ def replay_behaviour(rep, spec_cls, real, optname, fixed, latlon, temporal, beh,
     return steps
 
 
-REPRESENTATIVE = ("Exponential", "Gaussian", "Stable", "JBessel", "TPLGaussian")
+REPRESENTATIVE = ("Exponential", "Gaussian", "Stable", "JBessel", "TPLGaussian", "TPLGaussian:H")
 COMBOS = [(False, False), (False, True), (True, False), (True, True)]
 
 
@@ -483,7 +499,7 @@ def run(pid, tier, seed, replay=None):
         jobs, meta = [], {}
         os.makedirs(sc.path("sim"), exist_ok=True)
         for (spec_cls, real, optname, fixed, latlon, temporal) in plan(tier):
-            tag = "%s_%d%d" % (real, latlon, temporal)
+            tag = "%s_%d%d" % (real.replace(":", "_"), latlon, temporal)
             meta[tag] = (spec_cls, real, optname, fixed, latlon, temporal)
             if thorough or real in REPRESENTATIVE:
                 mod, cfg = mc_module("MC_" + tag, spec_cls, real, latlon, temporal, "quick" if thorough else "gen")
